@@ -45,6 +45,12 @@ CHECKS = {
               "table regenerated from the source; NaN comparison value selects nothing; model tied to the code on literal class models, "
               "oracle against Condition.evaluate over hashable/unhashable/non-finite/Enum/object comparison values"),
         technique='Lean 4 proof over a hand model + generated operator table + differential correspondence', ref='4 C11'),
+    'C13': dict(
+        text=("Lean theorems: a dict whose tag key holds K's tag is loaded by K's loader for every position of K in the Union and any "
+              "other members (dispatch on the tag alone); unassigned / missing tags give ParseError; the tag key resolves to 'ignored' "
+              "(never unknown, never captured); dump appends the tag under the configured key; model tied to the code over families, "
+              "tag keys, argument rotations, container positions, and a load-before-any-dump stream"),
+        technique='Lean 4 proof over a hand model + differential correspondence', ref='4 C13'),
     'C08': dict(
         text=("Lean theorems about the model of string_conv / object_path (casing round trips for canonical snake names, "
               "tokenizer facts), model tied to the code by exhaustive small-alphabet correspondence plus end-to-end alias/path checks"),
